@@ -37,6 +37,10 @@ struct Measure {
 
 fn measure(c: &Case, input: &[u8]) -> Measure {
     let mut term = Term::new(c.emu, c.w, c.h);
+    if c.ctx_name == "file-loader" {
+        // the state in which the format loaders drive the same parsers: not a terminal buffer (no scrollback window, no clamping to a screen)
+        term.buf.is_terminal_buffer = false;
+    }
     term.feed_quiet(&c.ctx);
     term.feed_quiet(b"A");
     restart_case_clock();
@@ -169,7 +173,9 @@ struct Family {
 }
 
 fn ctxs_for(emu: Emu, w: i32, h: i32) -> Vec<(&'static str, Vec<u8>)> {
-    contexts(emu, w, h).into_iter().filter(|c| matches!(c.0, "fresh" | "scrollback" | "tb-margins" | "all-margins")).collect()
+    let mut v: Vec<(&'static str, Vec<u8>)> = contexts(emu, w, h).into_iter().filter(|c| matches!(c.0, "fresh" | "scrollback" | "tb-margins" | "all-margins")).collect();
+    v.push(("file-loader", vec![]));
+    v
 }
 
 fn dcs(body: &str) -> Vec<u8> {
@@ -410,7 +416,7 @@ impl Engine for Cost {
             emu: Emu::from_name(case["emu"].as_str().unwrap_or("ansi")),
             w: case["size"][0].as_i64().unwrap_or(80) as i32,
             h: case["size"][1].as_i64().unwrap_or(25) as i32,
-            ctx_name: "replay",
+            ctx_name: if case["context"].as_str() == Some("file-loader") { "file-loader" } else { "replay" },
             ctx: json_bytes(&case["context_bytes"]),
             input: json_bytes(&case["input"]),
             sibling: if case["sibling"].is_null() { None } else { Some(json_bytes(&case["sibling"])) },
